@@ -592,7 +592,7 @@ def run(prop, tier, replay=None):
     if prop not in TIERS:
         raise C.Machinery("flux engine: property %s is not built yet" % prop)
     rep = C.Report(prop, tier)
-    wd = C.workdir("flux_%s_%s" % (prop, tier))
+    wd = C.workdir("flux_%s_%s_%d" % (prop, tier, os.getpid()))     # concurrent runs of the same check do not collide
     rep.cleanup.append(wd)
     if replay is not None:
         return _replay(rep, wd, replay)
